@@ -90,6 +90,8 @@ PANEL = [('2.5', 'PID'), ('2.5', 'OBX'), ('2.5', 'QPD'), ('2.5', 'PV1'), ('2.3',
 
 def _panel():
     out = [(v, s) for v, s in PANEL if s in T.LIBS[v].SEGMENTS and T.seg_children(v, s)]
+    if not THOROUGH:
+        out = [x for x in out if x not in (('2.5', 'PV1'), ('2.2', 'OBR'), ('2.8.1', 'OBR'), ('2.8.2', 'IN1'), ('2.4', 'ORC'), ('2.5.1', 'SPM'))]
     if THOROUGH:
         rnd = random.Random(100 + SEED)
         rest = [(v, s) for v in T.VERSIONS for s in T.SEGS[v] if T.seg_children(v, s) and s != 'MSH' and (v, s) not in out]
